@@ -892,7 +892,7 @@ def main(ctx):
         ctx.obligation("tie:Generated.C19.shapes = expectedShapes (parse-side Go text as transcribed)", "tie", True, "")
     lean_ok = ok
     if ok:
-        ctx.audit("GojaModel.C19.Props", expect_min=47)
+        ctx.audit("GojaModel.C19.Props", expect_min=48)
         if ctx.tier == "thorough":
             ctx.leanchecker("GojaModel.C19.Props")
     h = ctx.go_build()
